@@ -31,6 +31,11 @@ func ProfileFor(prop string) Profile {
 	case "limit":
 		p.MaxHeight = 6
 		p.WBind = 25
+	case "bind2":
+		p.Bind2 = 60
+		p.WBind = 40
+		p.WSet = 30
+		p.Depth = 2
 	case "inner":
 		p.Inner = 50
 		p.WBind = 35
